@@ -126,8 +126,9 @@ reg("C13", exc_ops=set(), nontrivial=nt_we, hook="hierarchy", obs_fail=False, mc
     weights={"CreateWe": 14, "AddPrefix": 10, "MovePrefix": 8, "AddRule": 8, "AddPage": 25, "RemovePrefix": 4},
     profile={"raw": 0.0, "long": 0.1, "nlrus": 14, "extend": 0.25}, title="Hierarchy / pruning flag")
 reg("C14", exc_ops=set(), nontrivial=nt_pages, hook="readonly", obs_fail=False,
-    weights={"Clear": 3, "CreateWe": 8, "AddLinks": 16},
-    profile={"raw": 0.1, "long": 0.3, "nlrus": 10}, n=(40, 400), steps=(10, 16), title="Queries never modify")
+    weights={"Clear": 3, "CreateWe": 8, "AddLinks": 16, "Reopen": 8, "AddRule": 10},
+    profile={"raw": 0.1, "long": 0.3, "nlrus": 10, "reopen_drop": 0.6}, n=(40, 400), steps=(10, 16),
+    title="Queries never modify")
 reg("C15", exc_ops=ALL_OPS, nontrivial=nt_long, hook="pair",
     roles=[("file", ()), ("memory", ())], pairname="C15.pair", prefixes=["C15."], prehook=hooks.prehook_mmap,
     weights={"Reopen": 0, "Clear": 3, "AddRule": 6},
